@@ -47,6 +47,9 @@ func DecodeSgpdSR(hdr BoxHeader, startPos uint64, sr bits.SliceReader) (Box, err
 		b.DefaultGroupDescriptionIndex = sr.ReadUint32()
 	}
 	entryCount := sr.ReadUint32()
+	if uint64(entryCount) > uint64(sr.NrRemainingBytes()) {
+		return nil, fmt.Errorf("sgpd: entry count %d does not fit in %d bytes", entryCount, sr.NrRemainingBytes())
+	}
 	for i := uint32(0); i < entryCount; i++ {
 		var descriptionLength = b.DefaultLength
 		if b.Version >= 1 && b.DefaultLength == 0 {
@@ -55,6 +58,12 @@ func DecodeSgpdSR(hdr BoxHeader, startPos uint64, sr bits.SliceReader) (Box, err
 		}
 		if descriptionLength == 0 {
 			return nil, fmt.Errorf("sgpd: invalid descriptionLength of 0")
+		}
+		if sr.AccError() != nil {
+			return nil, sr.AccError()
+		}
+		if uint64(descriptionLength) > uint64(sr.NrRemainingBytes()) {
+			return nil, fmt.Errorf("sgpd: description length %d does not fit in %d bytes", descriptionLength, sr.NrRemainingBytes())
 		}
 		sgEntry, err := decodeSampleGroupEntry(b.GroupingType, descriptionLength, sr)
 		if err != nil {
